@@ -56,6 +56,7 @@ func applyLoopRules(r *Run, ic string) {
 }
 
 func runC16(r *Run) {
+	r.CacheInventory([]string{"consensus", "consensus/storage", "verifier", "protocol", "chain", "chain/momentum"}, cacheTriage, "a side chain is verified against elections and views of *its* branch: a memo keyed by tick or height serves the abandoned branch's answer")
 	ic := c16Aliases(r)
 
 	// lock before read, released on every exit
